@@ -71,6 +71,10 @@ theorem steps_symbol {w : List Nat} (hs : symShaped w = true) (hw : S.contains w
     refine ⟨f0, by simp at hlen; omega, ?_⟩
     simpa using lex_symbol (S := S) f0 w rest acc hs hw hr
 
+theorem Steps.cons_ws {b : List Nat} {tb : List Tok} {P : List Nat → Prop} (h : Steps S b tb P) : Steps S (32 :: b) tb P := by
+  have := Steps.append (S := S) steps_ws h (fun _ _ => trivial)
+  simpa using this
+
 /-! ### safety of what follows a string terminal -/
 
 theorem safe_nil (w : List Nat) : SafeAfter S w [] := by
@@ -104,12 +108,14 @@ theorem safe_blank (h1 : ∀ t ∈ S, t.contains 32 = true → t = [46, 32]) (hd
     | cons b w'' => simp at this
 
 /-- what may follow a complete term or type text: the end, a blank, a closing bracket, a comma -/
-def Follow (rest : List Nat) : Prop := rest = [] ∨ ∃ c r, rest = c :: r ∧ (isWs c = true ∨ c = 41 ∨ c = 44)
+def Follow (rest : List Nat) : Prop := rest = [] ∨ ∃ c r, rest = c :: r ∧ (isWs c = true ∨ c = 41 ∨ c = 44 ∨ c = 58 ∨ c = 46)
 
 theorem follow_blank (r : List Nat) : Follow (32 :: r) := Or.inr ⟨32, r, rfl, Or.inl (by decide)⟩
 theorem follow_ws {c : Nat} (hc : isWs c = true) (r : List Nat) : Follow (c :: r) := Or.inr ⟨c, r, rfl, Or.inl hc⟩
 theorem follow_rp (r : List Nat) : Follow (41 :: r) := Or.inr ⟨41, r, rfl, Or.inr (Or.inl rfl)⟩
-theorem follow_comma (r : List Nat) : Follow (44 :: r) := Or.inr ⟨44, r, rfl, Or.inr (Or.inr rfl)⟩
+theorem follow_comma (r : List Nat) : Follow (44 :: r) := Or.inr ⟨44, r, rfl, Or.inr (Or.inr (Or.inl rfl))⟩
+theorem follow_colon (r : List Nat) : Follow (58 :: r) := Or.inr ⟨58, r, rfl, Or.inr (Or.inr (Or.inr (Or.inl rfl)))⟩
+theorem follow_dot (r : List Nat) : Follow (46 :: r) := Or.inr ⟨46, r, rfl, Or.inr (Or.inr (Or.inr (Or.inr rfl)))⟩
 
 theorem ws_not_idChar {c : Nat} (h : isWs c = true) : isIdChar c = false := by
   simp only [isWs, isIdChar, isLetter, isDigitC] at *
@@ -118,13 +124,15 @@ theorem ws_not_idChar {c : Nat} (h : isWs c = true) : isIdChar c = false := by
 
 theorem Follow.notId {rest : List Nat} (h : Follow rest) : NotIdNext rest := by
   intro c r hr
-  rcases h with rfl | ⟨c', r', rfl, hc | rfl | rfl⟩
+  rcases h with rfl | ⟨c', r', rfl, hc | rfl | rfl | rfl | rfl⟩
   · cases hr
   · cases hr; exact ws_not_idChar hc
   · cases hr; decide
   · cases hr; decide
+  · cases hr; decide
+  · cases hr; decide
 
-theorem safe_rp (hrp : ∀ t ∈ S, [41].isPrefixOf t = true → t = [41] ∨ isWs ((t.drop 1).headD 0) = false ∧ (t.drop 1).headD 0 ≠ 41 ∧ (t.drop 1).headD 0 ≠ 44)
+theorem safe_rp (hrp : ∀ t ∈ S, [41].isPrefixOf t = true → t = [41] ∨ isWs ((t.drop 1).headD 0) = false ∧ (t.drop 1).headD 0 ≠ 41 ∧ (t.drop 1).headD 0 ≠ 44 ∧ (t.drop 1).headD 0 ≠ 58 ∧ (t.drop 1).headD 0 ≠ 46)
     {rest : List Nat} (hf : Follow rest) : SafeAfter S [41] rest := by
   intro m hm h
   rcases hf with rfl | ⟨c, r, rfl, hcw⟩
@@ -136,12 +144,14 @@ theorem safe_rp (hrp : ∀ t ∈ S, [41].isPrefixOf t = true → t = [41] ∨ is
     simp only [List.contains_eq_mem, List.cons_append, List.nil_append, decide_eq_true_eq] at hmem
     have := hrp _ hmem (by simp [List.isPrefixOf])
     simp only [List.cons.injEq, List.drop_succ_cons, List.drop_zero, List.headD_cons] at this
-    rcases this with h0 | ⟨h1, h2, h3⟩
+    rcases this with h0 | ⟨h1, h2, h3, h4, h5⟩
     · simp at h0
-    · rcases hcw with hw | rfl | rfl
+    · rcases hcw with hw | rfl | rfl | rfl | rfl
       · rw [hw] at h1; cases h1
       · exact h2 rfl
       · exact h3 rfl
+      · exact h4 rfl
+      · exact h5 rfl
 
 theorem safe_dot (hd : ∀ t ∈ S, [46, 32].isPrefixOf t = true → t = [46, 32]) (rest : List Nat) :
     SafeAfter S [46, 32] rest := by
